@@ -414,6 +414,12 @@ pub fn run(ctx: &mut Ctx, o: &AttackOpts) {
                 m2.kb = Some(t);
                 go(ctx, &m2, true);
             }
+            // a presented disclosure repeated right next to itself after the KB-JWT was made (sd_hash covers the sequence as sent)
+            for i in 0..m.discs.len().min(3) {
+                let mut m2 = m.clone();
+                m2.discs.insert(i, m.discs[i].clone());
+                go(ctx, &m2, true);
+            }
             // disclosures changed after the KB-JWT was made: one more, one fewer, reordered
             let extra: Vec<&String> = full.discs.iter().filter(|d| !m.discs.contains(d)).collect();
             for e in extra.iter().take(3) {
